@@ -61,7 +61,7 @@ func (s Stream) Each(emit func(c Case)) {
 		}
 	}
 	thorough := s.Tier == "thorough"
-	g := &Gen{R: rng, MaxNodes: 40, MaxDepth: 8, Scopey: s.Prop == "C03"}
+	g := &Gen{R: rng, MaxNodes: 40, MaxDepth: 8, Scopey: s.Prop == "C03", Vocab: GenVocab{Ext: true}}
 
 	// 1. idioms and their mutations
 	nid := 400
